@@ -196,6 +196,9 @@ class Env:
                     mk = PURE.get(callee_model_key(c2)) if not c2.indirect else None
                     if mk == "bool::then" and len(t["args"]) == 2 and unref(self.ev.operand(pctx, t["args"][1])) == clo:
                         entry.extend(bool_facts(self.ev.operand(pctx, t["args"][0]), True))
+                    if mk in ("Option::map", "Option::and_then", "Option::map_or") and len(t["args"]) in (2, 3) \
+                            and unref(self.ev.operand(pctx, t["args"][-1])) == clo:
+                        entry.extend(self._some_site_facts(pctx, t["args"][0]))
                 c.entry_facts = tuple(entry)
         else:
             c = Ctx(body, params=None, self_adt=self_adt, bindings=bindings, stack=(body.def_,))
@@ -376,6 +379,14 @@ class Env:
                     tb = cbb if top_bb is None else top_bb
                     self._flat(cctx, tb, chain + ((body, cbb, ctx),), out, depth + 1, max_depth)
 
+    def _some_site_facts(self, pctx, recv_op):
+        """facts common to every place where the Option held by operand recv_op gets a `Some` (guards.site_cases)"""
+        from guards import local_cases, class_facts
+        if recv_op["k"] not in ("copy", "move") or recv_op["place"]["p"] or getattr(self.ev, "_inprogress", None):
+            return []
+        cs = local_cases(self.ev, pctx, recv_op["place"]["l"]) or []
+        return class_facts(cs, "Some")
+
     def closure_ctx(self, pctx, cl):
         """(context, creation block) of closure body cl created in the activation pctx of its parent: the closure
         environment is bound to the creation site; its argument and entry facts come from the modelled combinator that
@@ -409,6 +420,7 @@ class Env:
                         # what held wherever this `Some(payload)` was built
                         entry.extend(self.ev.payload_facts.get(pay, []))
                         entry.extend(self.ev.payload_flags.get(pay, []))
+                        entry.extend(self._some_site_facts(pctx, t["args"][0]))
                 elif mk == "bool::then" and len(t["args"]) == 2:
                     if unref(self.ev.operand(pctx, t["args"][1])) == clo:
                         entry.extend(bool_facts(self.ev.operand(pctx, t["args"][0]), True))
